@@ -327,6 +327,10 @@ CHECKS = {
              "reach": ["c13:end-settled"], "threads": True, "tier": "thorough"},
             {"harness": "HarnessC13Teardown", "grid": {"who": [0, 1, 2], "buf": [0, 1], "tbuf": [0, 1]}, "params": {"sched": 1, "P": 1},
              "reach": ["c13:end-settled"], "threads": True, "tier": "thorough", "timeout": 7000},
+            {"harness": "HarnessC13HangUp", "grid": {"who": [0, 1], "tbuf": [0, 1], "P": [1, 2]}, "params": {"sched": 1},
+             "reach": ["c13:hangup-settled"], "threads": True},
+            {"harness": "HarnessC13Teardown", "grid": {"who": [1, 2]}, "params": {"sched": 1, "tbuf": 0, "buf": 1, "hangup": 1},
+             "reach": ["c13:end-settled"], "threads": True, "tier": "thorough", "timeout": 7000},
             {"harness": "HarnessC13Parked", "grid": {"who": [1, 2, 3], "P": [0, 1]}, "params": {"sched": 1, "buf": 0},
              "reach": ["c13:parked-settled"], "threads": True},
             {"harness": "HarnessC19Recover", "grid": {"fault": [0, 2]}, "params": {"sched": 1, "spinok": 1, "P": 1}, "unroll": 5,
